@@ -1641,6 +1641,10 @@ class TeX(object):
             elif t == '`':
                 for t in self.itertokens():
                     num = number(sign * ord(t))
+                    # Like the other constants, an alphabetic constant is
+                    # followed by one optional space
+                    if optspace:
+                        self.readOneOptionalSpace()
                     break
             break
         ParameterCommand.enable()
